@@ -355,3 +355,18 @@ Theorem get_cells_accumulates :
     ccells (cq_get_cells (fun s => s) (fun s _ => [s]) (cq_get_cells (fun s => s) (fun s _ => [s]) cq_new s1) s2)
     <> ccells (cq_get_cells (fun s : nat => s) (fun s (_ : nat) => [s]) cq_new s2).
 Proof. exists 1, 2. vm_compute. discriminate. Qed.
+
+(** ** Executable check for the correspondence: distances as the 64 bits of the ChordAngle
+    (a Z), the search itself left out. After a history on the real EdgeQuery the caller's
+    options object must hold what the model says, and e.opts must point at it again. *)
+From Coq Require Import ZArith.
+Definition zopts_eqb (a b : @opts Z) : bool :=
+  (maxResults a =? maxResults b) && Z.eqb (limit a) (limit b) && Z.eqb (maxError a) (maxError b) &&
+  Bool.eqb (inclInt a) (inclInt b) && Bool.eqb (brute a) (brute b).
+Definition eq_case (straight : Z) (u0 : @opts Z) (h : list (@qop Z unit unit))
+           (observed : @opts Z) (alias_restored : bool) : bool :=
+  match run (qstep_new straight (fun l => l) (fun _ : unit => []) (fun _ : unit => 30) (fun _ => tt)
+                       (fun _ _ _ _ => @nil unit) u0) (eq_new tt u0) h with
+  | Ok (q, _) => zopts_eqb (hget u0 (uptr q) (eheap q)) observed && Bool.eqb (eopts q =? uptr q) alias_restored
+  | _ => false
+  end.
